@@ -1397,6 +1397,12 @@ def formula_specs(trees):
                                       'self.distribution.deviance': dev},
                              what='`self._linear_predictor(modelmat)` ↦ `lp`, `self.link.mu(·, dist)` ↦ `linkInv`, '
                                   '`self.distribution.deviance(y, mu, weights, scaled)` ↦ `deviance` (entrywise); returns (GCV, UBRE)'))
+    # the built-in Deviance callback: what is logged at the start of each iteration (C20)
+    cb_attrs = {'dist.distribution': ('D', None)}      # the `gam` parameter has role 'D' (an object whose attributes are read): its paths start with `dist`
+    specs.append(FormulaSpec('callback_deviance', 'gam', ('callbacks.py', 'Deviance', 'on_loop_start', None),
+                             pre=[('deviance', 'α → α → α → Bool → α')], params=['D', 'V', 'V'], attrs=cb_attrs,
+                             callees={'dist.distribution.deviance': dev},
+                             what='`gam.distribution.deviance(y, mu, weights, scaled)` ↦ `deviance` (entrywise; `weights` omitted = 1); the logged value'))
     return specs
 
 
@@ -1662,7 +1668,7 @@ def parse_all(names):
 
 
 def formulas_main():
-    text, problems = formulas_text(parse_all(('links.py', 'distributions.py', 'pygam.py')))
+    text, problems = formulas_text(parse_all(('links.py', 'distributions.py', 'pygam.py', 'callbacks.py')))
     for p in problems:
         print('translate: NOT TRANSLATED', p)
     write_if_changed(OUT_FORMULAS, text)
